@@ -18,6 +18,10 @@ Oracles
     element yields for the same suffix (observational equality; only ever compared between the two
     real executions, never with the model);
   * fill and reset themselves must not raise inside the alphabet;
+  * two consumers of compute(): list(), and one that takes the values one by one and updates the context
+    of each received value in place before it asks for the next (what the elements that follow an
+    accumulator in a sequence do); every value is judged as it was when the consumer received it, so
+    whatever the consumer did to earlier values - of this compute or of an earlier one - may not show;
   * three families of histories per configuration: from a newly constructed element; after a sibling
     instance of the class has been active (prelude); with the element under test being a deep copy
     of a newly constructed element whose original stays alive, is filled once after the copy was
@@ -39,9 +43,11 @@ from mc.ref import c09_models as M
 ID = "C09"
 LEVEL = "model_checking"
 DESIGN_REF = "DESIGN.md section 5, C09"
-RULE = ("breadth-first search over histories (fill(v) | compute | reset)* of every element "
+RULE = ("breadth-first search over histories (fill(v) | compute | compute taken by an updating consumer | "
+        "reset)* of every element "
         "configuration, one shard per (configuration, first event) for the plain and the sibling-prelude "
-        "family and one shard per configuration for the deep-copy family (prelude and deep-copy: one "
+        "family (the two kinds of compute as first event share a shard) and one shard per configuration "
+        "for the deep-copy family (prelude and deep-copy: one "
         "level less); a history is extended only if its "
         "canonical state (frozen vars of element and twin + abstract model state) was not seen before in "
         "its shard; every executed transition is one evaluation; it is non-trivial when it is a compute "
@@ -77,12 +83,22 @@ ASSUMPTIONS = [
     "FillRequest / FillRequestSeq are driven block-aligned only (bufsize fills, then request()), and "
     "reset() is called only between blocks: their reset documents resetting the wrapped element, not "
     "the adapter's own counters (mid-block behaviour belongs to C16)",
-    "outcomes are compared by == on values and by type name on exceptions; aliasing of yielded "
-    "contexts is C04's subject, not judged here",
+    "outcomes are compared by == on values and by type name on exceptions; object identity of yielded "
+    "contexts (aliasing as such) is C04's subject, not judged here - only what a consumer receives is",
+    "the updating consumer changes only the context of a received (data, context) pair (sets a key in "
+    "every dictionary and appends to every list reachable from it), never the data; a value is judged as "
+    "it was at the moment it was received; StoreFilled / GroupBy yield the filled values themselves, so "
+    "what the consumer does to them stays on them (judged by identity, and equally done to the twin's); "
+    "request() of the FillRequest adapters and of Zip (one value per block) is taken by list() only",
+    "accumulators that yield several values per compute: StoreFilled(yield_as_a_group=False), GroupBy, "
+    "Vectorize over StoreFilled(yield_as_a_group=False) components (equal numbers of outputs, and unequal "
+    "ones next to Sum: the documented padding with None), Mean over a user's sum algorithm that yields "
+    "the sum, the number of values and the smallest value (documented: all are yielded, the first is "
+    "divided by the count) - fed plain data by Mean, so its further values carry no context of their own",
     "elements needing numpy (NumpyHistogram) are outside the alphabet; the deprecated private _GroupBy "
     "(kept for GroupPlots) is not a framework element",
 ]
-NONTRIVIAL_FLOOR = {"quick": 12000, "thorough": 100000}
+NONTRIVIAL_FLOOR = {"quick": 24000, "thorough": 100000}
 BUDGET_S = {"quick": 240, "thorough": 1500}
 
 DEPTH = {"quick": 4, "thorough": 6}
@@ -116,7 +132,8 @@ ZBLOCKS2 = [[1, -2], [0.5, (BIG, CTX1)], [(4, CTX2), 1]]
 
 def describe(tier):
     return ("all histories of length <= %d over fill(v) | compute | reset for %d element configurations "
-            "(value pools of 5..9 values per element), de-duplicated on canonical state; FillRequest "
+            "(value pools of 5..9 values per element), compute taken by list() or value by value by a "
+            "consumer that updates each received context in place, de-duplicated on canonical state; FillRequest "
             "adapters and Zip of FillRequest branches: block | reset histories of the same length; the same "
             "with length <= %d after a sibling instance was active, and for a deep copy of a new element "
             "whose original stays alive"
@@ -140,8 +157,39 @@ class Cfg(object):
         self.model_fresh = model_fresh or model
         self.pool, self.kind, self.peek = pool, kind, peek
         self.watch = watch
+        # "c": compute() taken by list(); "m": compute() taken value by value by a consumer that updates
+        # the context of every received value in place before it asks for the next one
         self.events = list(range(len(pool))) + (["c"] if kind == "fc" else []) + ["r"] + \
-            ["x%d" % i for i in range(len(self.refused))]
+            ["x%d" % i for i in range(len(self.refused))] + (["m"] if kind == "fc" else [])
+
+
+class SumCountMin(object):
+    """A user's sum algorithm for Mean(sum_seq=...) that yields further values after the sum: the number
+    of values and the smallest one (Mean.compute: "if the sum_seq yields several values, they are all
+    yielded, but only the first is divided by number of events")."""
+
+    def __init__(self):
+        self._sum = lena.math.Sum()
+        self._data = []
+
+    def fill(self, value):
+        self._sum.fill(value)
+        self._data.append(lena.flow.get_data(value))
+
+    def compute(self):
+        for val in self._sum.compute():
+            yield val
+        yield len(self._data)
+        if self._data:
+            yield min(self._data)
+
+    def reset(self):
+        self._sum.reset()
+        self._data = []
+
+
+def _count_min(datas):
+    return [len(datas), min(datas)]
 
 
 def _configs():
@@ -173,6 +221,8 @@ def _configs():
     add("Mean(sum_seq=DSum())", "Mean", lambda: Mean(sum_seq=DSum()),
         lambda: M.MeanModel(exact_sum=True), NUM)
     add("Mean(sum_seq=Sum())", "Mean", lambda: Mean(sum_seq=Sum()), lambda: M.MeanModel(), NUM)
+    add("Mean(sum_seq=SumCountMin())", "Mean", lambda: Mean(sum_seq=SumCountMin()),
+        lambda: M.MeanModel(extras=_count_min), BENIGN)
     add("VarianceMeanCount()", "VarianceMeanCount", lambda: VMC(), lambda: M.VarianceModel(), BENIGN,
         refused=[(1e200, CTX1)])
     add("VarianceMeanCount(corrected=False)", "VarianceMeanCount", lambda: VMC(corrected=False),
@@ -193,6 +243,14 @@ def _configs():
         lambda: M.VectorModel([M.VarianceModel(corrected=False), M.VarianceModel(corrected=False)]), VECB)
     add("Vectorize(VarianceMeanCount(), dim=2)", "Vectorize", lambda: Vectorize(VMC(), dim=2),
         lambda: M.VectorModel([M.VarianceModel(), M.VarianceModel()]), VECB)
+    # components that yield several values per compute (one per filled value), of equal and of unequal
+    # number (documented: the longest output is yielded, the others are padded with None)
+    add("Vectorize(StoreFilled(yield_as_a_group=False), dim=2)", "Vectorize",
+        lambda: Vectorize(StoreFilled(yield_as_a_group=False), dim=2),
+        lambda: M.VectorModel([M.StoreModel(False), M.StoreModel(False)]), VEC)
+    add("Vectorize([StoreFilled(yield_as_a_group=False), Sum()])", "Vectorize",
+        lambda: Vectorize([StoreFilled(yield_as_a_group=False), Sum()]),
+        lambda: M.VectorModel([M.StoreModel(False), M.SumModel()]), VEC)
     add("StoreFilled()", "StoreFilled", lambda: StoreFilled(), lambda: M.StoreModel(True), STORE,
         peek=lambda el: el.group)
     add("StoreFilled(yield_as_a_group=False)", "StoreFilled",
@@ -261,12 +319,16 @@ BY_NAME = {c.name: c for c in CONFIGS}
 
 def shards(tier):
     out = []
+    # the histories that begin with a compute (by either consumer) share one shard, hence one set of
+    # seen states: a compute that leaves the element as it was is then explored once, not twice
     for c in CONFIGS:
         for k in range(len(c.events)):
-            out.append({"config": c.name, "first": k})
+            if c.events[k] != "m":
+                out.append({"config": c.name, "first": k})
     for c in CONFIGS:
         for k in range(len(c.events)):
-            out.append({"config": c.name, "first": k, "prelude": True})
+            if c.events[k] != "m":
+                out.append({"config": c.name, "first": k, "prelude": True})
     for c in CONFIGS:
         # one level less, like the prelude family: one shard holds all first events of a configuration
         out.append({"config": c.name, "first": None, "copy": True})
@@ -452,6 +514,34 @@ def _block(el, block):
     return list(el.request())
 
 
+def _scribble(c, k):
+    """Update a context in place, in every mutable container reachable from it (what elements that
+    follow in a sequence do with the context of a value they received: Count.run, UpdateContext,
+    Variable, MakeFilename ... set keys at the top level and in nested dictionaries)."""
+    if isinstance(c, dict):
+        for v in list(c.values()):
+            _scribble(v, k)
+        c["received_as"] = k
+    elif isinstance(c, list):
+        for v in c:
+            _scribble(v, k)
+        c.append("received as %d" % k)
+
+
+def _take_updating(gen):
+    """The consumer of event "m": takes the values one by one; each value is recorded as it arrives
+    (a deep copy: what the consumer saw at that moment) and then its context - for a (data, context)
+    pair - is updated in place, before the generator is resumed.
+    Returns (snapshots at receipt, the received objects themselves)."""
+    snaps, reals = [], []
+    for k, item in enumerate(gen):
+        snaps.append(copy.deepcopy(item))
+        reals.append(item)
+        if isinstance(item, tuple) and len(item) == 2 and isinstance(item[1], dict):
+            _scribble(item[1], k)
+    return snaps, reals
+
+
 def _short(x, limit=400):
     r = repr(x)
     return r if len(r) <= limit else r[:limit] + "..."
@@ -468,7 +558,7 @@ def step(cfg, S, e):
             S.alive = False
             ret[0].append(({"law": "copy-independent", "element": cfg.element, "config": cfg.name,
                             "feature": "original changed by " + ("fill" if isinstance(e, int) else
-                                                                   {"c": "compute", "r": "reset"}.get(e, "refused fill"))},
+                                                                   {"c": "compute", "m": "compute", "r": "reset"}.get(e, "refused fill"))},
                            _short(now), _short(S.origin_before),
                            "the element is a deep copy; what the original (filled once, never touched "
                            "again) computes changed through an event on the copy"))
@@ -493,25 +583,37 @@ def _step(cfg, S, e):
             bad("reset-equals-fresh", "public attribute " + where, a, b,
                 "documented public attribute differs from that of a fresh element after the same suffix")
 
-    if e == "c":
-        out = _call(cfg, lambda: list(S.el.compute()))
-        for kind, feature, want, got in S.model.judge(out, S.objs):
-            bad(kind + sfx, feature, got, want,
+    if e in ("c", "m"):
+        if e == "c":
+            take = lambda el: list(el.compute())
+            judged = lambda o: o
+            how = ""
+        else:
+            # every value is judged as it was when the consumer received it; the models that demand
+            # "the filled values themselves" are given the received objects (they judge identity)
+            take = lambda el: _take_updating(el.compute())
+            judged = lambda o: o if o[0] != "ok" else ("ok", o[1][1] if S.model.by_identity else o[1][0])
+            how = " (values taken one by one, context of each updated in place by the consumer)"
+        raw = _call(cfg, lambda: take(S.el))
+        out = raw if e == "c" or raw[0] != "ok" else ("ok", raw[1][0])
+        for kind, feature, want, got in S.model.judge(judged(raw), S.objs):
+            bad(kind + sfx, feature + how, got, want,
                 "fills since last reset: %s" % _short(S.model.values, 300))
         c = canon_outcome(out)
         if S.twin is not None:
-            tout = _call(cfg, lambda: list(S.twin.compute()))
+            traw = _call(cfg, lambda: take(S.twin))
+            tout = traw if e == "c" or traw[0] != "ok" else ("ok", traw[1][0])
             ct = canon_outcome(tout)
             if c != ct:
-                bad("reset-equals-fresh", "compute", c, ct,
+                bad("reset-equals-fresh", "compute" + how, c, ct,
                     "compute() after reset differs from a fresh element given the same suffix")
             elif types_outcome(out) != types_outcome(tout):
-                bad("reset-equals-fresh", "compute (types of the numbers)",
+                bad("reset-equals-fresh", "compute (types of the numbers)" + how,
                     (out[1], types_outcome(out)), (tout[1], types_outcome(tout)),
                     "compute() after reset yields numbers of another type than a fresh element given "
                     "the same suffix")
         nontrivial = S.model.n >= 2 or (after and S.filled_before_reset)
-        return viols, ("c", c), nontrivial, True
+        return viols, (e, c), nontrivial, True
 
     if e == "r":
         had = S.model.n > 0
@@ -624,6 +726,8 @@ def _readable(cfg, hist):
     for e in hist:
         if e == "c":
             out.append("compute")
+        elif e == "m":
+            out.append("compute, each value taken and its context updated in place before the next is asked for")
         elif e == "r":
             out.append("reset")
         elif isinstance(e, str) and e.startswith("x"):
@@ -645,7 +749,10 @@ def run_shard(p, tier):
     for level in range(1, depth + 1):
         nxt = []
         for h in frontier:
-            events = [first] if level == 1 and first is not None else cfg.events
+            if level == 1 and first is not None:
+                events = ["c", "m"] if first == "c" and "m" in cfg.events else [first]
+            else:
+                events = cfg.events
             for e in events:
                 S = State(cfg, mode)
                 for pe in h:
@@ -707,12 +814,17 @@ LEVEL_TEXT = ("explicit-state model checking of the real accumulator objects: br
               "histories (fill(v) | compute | reset)* up to depth 4 (quick) / 6 (thorough) for %d element "
               "configurations, de-duplicated on the frozen vars of the element and of its fresh twin; every "
               "compute is compared with an independent reference aggregate and with the twin (values and "
-              "number types); repeated one level shallower after sibling activity and for deep copies of "
+              "number types), under a consumer that takes all values at once and under one that updates the "
+              "context of every received value in place before it takes the next; repeated one level "
+              "shallower after sibling activity and for deep copies of "
               "the elements (original must stay undisturbed)" % len(CONFIGS))
 LEVEL_NOTE = ("bounded: histories up to the stated depth over per-element value pools of 5..9 values; "
               "FillRequest adapters and Zip of FillRequest branches only block-aligned; NumpyHistogram "
               "outside the alphabet; "
-              "aliasing of yielded contexts is judged by C04, not here")
+              "the updating consumer touches contexts only and request() of the adapters is taken at once; "
+              "object identity (aliasing as such) of yielded contexts is judged by C04, here only its "
+              "effect on what a consumer receives")
 TECHNIQUE = ("explicit-state BFS over the real transition function with state de-duplication; reference "
              "models (len, fold, Fraction sums, cell dictionary, partition by canonical key), a "
-             "reset-vs-fresh twin and an original-vs-deep-copy pair as oracles")
+             "reset-vs-fresh twin and an original-vs-deep-copy pair as oracles; consumer schedules of "
+             "compute (at once | value by value with in-place context updates, judged at receipt)")
